@@ -421,7 +421,11 @@ class Interp(Engine):
         args, kwargs = [], {}
         for a in n.args:
             if isinstance(a, ast.Starred):
-                args.extend(self.iterate_concrete(self.ev(a.value, fr)))
+                sv = self.ev(a.value, fr)
+                if hasattr(sv, "__pyvc_star__"):  # extension sequence of symbolic length: handed to the callee's model as ONE marker argument
+                    args.append(sv.__pyvc_star__(self))
+                else:
+                    args.extend(self.iterate_concrete(sv))
             else:
                 args.append(self.ev(a, fr))
         for kw in n.keywords:
